@@ -106,9 +106,15 @@ def codecOp (toks : List String) : Option String :=
     -- outcome is that of decoding B alone (cross-family pairs are not an op: the other family's pointer is left as it was)
     match hexToBytes ha, hexToBytes hb with
     | some a, some b =>
-      if entry != "plain" && entry != "gmm" && entry != "gsm" then none
+      if (findMsg top.msgs entry).isSome then some (decEntry entry (some b))
+      else if entry != "plain" && entry != "gmm" && entry != "gsm" then none
       else if entry == "plain" && (a.isEmpty || b.isEmpty || a.head? != b.head?) then none
       else some (decEntry entry (some b))
+    | _, _ => none
+  | ["dec2x", ha, hb] =>
+    -- any two inputs through PlainNasDecode into one Message: the calls return (the model's decoders are total functions)
+    match hexToBytes ha, hexToBytes hb with
+    | some _, some _ => some "done"
     | _, _ => none
   | ["enc", fam, hdr, name, fields] =>
     if hdr.startsWith "hdr=" then
